@@ -261,6 +261,19 @@ def zone_for(pattern, gword=False):
     return z
 
 
+def all_zones():
+    zone_for("")
+    if "all" not in _ZONES:
+        _ZONES["all"] = iv.union(iv.union(_ZONES["d"], _ZONES["s"]), _ZONES["w"])
+    return _ZONES["all"]
+
+
+def in_zone(ch, kinds="ds"):
+    """Is ch one of the code points that only the Unicode-aware meaning of \\d / \\s / \\w adds?"""
+    zone_for("")
+    return any(iv.contains(_ZONES[k], ord(ch)) for k in kinds)
+
+
 def own_exception(e):
     return type(e).__module__.endswith("pregex.core.exceptions")
 
@@ -307,7 +320,11 @@ def compare(recipe, ns, re_mod=re, pool=None, mpool=None, out=None):
         return {"outcome": "notclass", "ok": False, "rule": "not_a_class", "detail": problem, "pattern": pattern}
     want = model_matched(mv) if mv[0] == "cls" else iv.from_points([ord(mv[1])])
     diff = iv.difference(iv.symdiff(s, want), zone_for(pattern, uses_gword(recipe)))
-    out = "set:%d:%s" % (iv.size(s), hash_intervals(s))
+    # configuration-independent summary: the code points that the Unicode-aware shorthands add are unspecified by
+    # C06/C07, and whether a shorthand is emitted can depend on how ranges happened to be merged - so they are
+    # left out of the summary that is compared across configurations
+    core = iv.difference(s, all_zones())
+    out = "set:%d:%s" % (iv.size(core), hash_intervals(core))
     if diff:
         extra = iv.difference(iv.difference(s, want), zone_for(pattern, uses_gword(recipe)))
         missing = iv.difference(iv.difference(want, s), zone_for(pattern, uses_gword(recipe)))
